@@ -175,6 +175,9 @@ def enumerate_ops(tree, nlev, rng, ndims, nf, full=True):
             out.append(({"op": "line_delete", "file": ch, "line": li}, lv, True, "cellh-entry-deleted"))
             out.append(({"op": "line_set", "file": ch, "line": li, "text": "garbled"}, lv, True, "cellh-entry-garbled"))
             out.append(({"op": "line_set", "file": ch, "line": li, "text": f"FabOnDisk: {fname} x{s['off']}"}, lv, True, "cellh-offset-unparsable"))
+            # an entry that is not the three tokens `FabOnDisk: <file> <offset>` although its last two tokens are a file and an offset
+            out.append(({"op": "line_set", "file": ch, "line": li, "text": f"{fname} {s['off']}"}, lv, True, "cellh-entry-tag-missing"))
+            out.append(({"op": "line_set", "file": ch, "line": li, "text": f"FabOnDisk: junk {fname} {s['off']}"}, lv, True, "cellh-entry-extra-token"))
             out.append(({"op": "line_set", "file": ch, "line": li, "text": f"FabOnDisk: Cell_D_09999 {s['off']}"}, lv, True, "cellh-missing-file"))
             others = [g for g in files if g != f]
             if others:
@@ -436,3 +439,31 @@ def read_back(path, tree, limit=None):
                     if again.shape != arr.shape or again.tobytes() != np.asarray(arr).tobytes():
                         bad.append(f"level {lv} box {b}: the level key {neg} returns other data than the key {lv}")
     return bad
+
+
+def coords_model_verdict(path, leanio, limit=None):
+    """verdict ("good" | "bad" | "raises") of the Lean model of taste's box-coordinate validation (`TasteCoords.axisOK`, exact
+    rationals of the header's floats) on the plotfile at `path`; None when the headers cannot be read by the oracle"""
+    from fractions import Fraction as Fr
+    from . import oracle
+    J = lambda x: [Fr(x).numerator, Fr(x).denominator]
+    try:
+        P = oracle.parse(path, maxmins=False, data=False)
+    except Exception:
+        return None
+    L = P["finest"] if limit is None else limit
+    nd = P["ndims"]
+    reqs = []
+    for lv in range(L + 1):
+        lev = P["levels"][lv]
+        try:
+            axes = [{"lo": J(P["lo"][d]), "hi": J(P["hi"][d]), "dx": J(P["dx"][lv][d]), "n": P["grid"][lv][d]} for d in range(nd)]
+            boxes = [{"i0": lo, "i1": hi, "blo": [J(pb[d][0]) for d in range(nd)], "bhi": [J(pb[d][1]) for d in range(nd)]}
+                     for (lo, hi), pb in zip(lev["idx"], lev["pboxes"])]
+        except (ValueError, OverflowError, IndexError):
+            return None            # nan / inf bounds have no rational value
+        reqs.append({"op": "coords_ok", "axes": axes, "boxes": boxes})
+    vs = [m.get("verdict") for m in leanio.driver(reqs)]
+    if any(v is None for v in vs):
+        return None
+    return "raises" if "raises" in vs else ("bad" if "bad" in vs else "good")
